@@ -73,6 +73,7 @@ type propRun struct {
 	errors    []string
 	bounded   []*Obligation
 	trustedOwn []string
+	explicit  []string
 }
 
 // collect generates everything that belongs to one property.
@@ -94,6 +95,7 @@ func (s *Session) collect(prop string) *propRun {
 		for k := range vc.usedCt {
 			pr.usedCt[k] = true
 		}
+		pr.explicit = append(pr.explicit, vc.explicitAssumes...)
 		if len(vc.unsupported) > 0 {
 			ob := &Obligation{Name: ct.Name + "/subset", Fn: ct.Name, Kind: "subset", Props: []string{prop}, Result: "error", Backend: "vcgen",
 				Raw: "function is outside the supported subset or its contract does not bind: " + strings.Join(vc.unsupported, "; "), Pos: ct.Source}
@@ -294,6 +296,9 @@ func writeEvidence(s *Session, pr *propRun, tier string, seed, discharged, viola
 	}
 	for _, n := range sortedKeys(pr.assumed) {
 		assumptions = append(assumptions, "external "+n+" assumed total, without effect on modelled state, result unconstrained")
+	}
+	for _, e := range pr.explicit {
+		assumptions = append(assumptions, "explicit assumption (assume_after) "+e)
 	}
 	assumptions = append(assumptions, propAssumptions[pr.prop]...)
 	assumptions = append(assumptions,
